@@ -431,6 +431,19 @@ def catalogue(big=False):
                                [call("MAKE"), call("MAKE2"), call("SINK", binds={"what": ref("MAKE"), "what2": ref("MAKE2")})],
                                {"r": ref("SINK", "r"), "t": ref("MAKE")})], "TOP", {}))
 
+    # 15e. typed maps of structs that the runtime assembles key by key: the merged result of a
+    #      call mapped over a typed map, and a map literal of references
+    P.append(program("map_of_structs", [struct("PT", "int a, int b")],
+                     [S_const("G", "map<int> m", {"m": {"first": 1, "second key": 2}}),
+                      stage("MK", "int x", "PT s", {"s": const({"a": 1, "b": 2})}),
+                      stage("USE", "map<PT> ss, map<PT> lit", "string r", {"r": INST})],
+                     [pipeline("TOP", "", "string r, map<PT> o",
+                               [call("G"), call("MK", binds={"x": split(ref("G", "m"))}, mode="map"),
+                                call("ONE", "MK", binds={"x": lit(7)}),
+                                call("USE", binds={"ss": ref("MK", "s"),
+                                                   "lit": {"k": "objx", "fs": [{"n": "p", "e": ref("ONE", "s")}, {"n": "q q", "e": ref("ONE", "s")}]}})],
+                               {"r": ref("USE", "r"), "o": ref("MK", "s")})], "TOP", {}))
+
     # 16. projection of a struct field through a two-dimensional array of structs
     P.append(program("proj2d", [struct("PT", "int x, int y")],
                      [S_const("G", "PT[][] grid", {"grid": [[{"x": 1, "y": 2}, {"x": 3, "y": 4}], [{"x": 5, "y": 6}]]}),
